@@ -29,13 +29,21 @@ CODES_2D = [
     ('Toric2DCode', [3, 3]), ('Planar2DCode', [2, 2]),
     ('Planar2DCode', [3, 2]), ('RotatedPlanar2DCode', [3, 3]),
     ('RotatedPlanar2DCode', [2, 3]),
+    ('Toric3DCode', [2, 2, 2]), ('Toric3DCode', [2, 3, 2]),
 ]
 DECODERS_FOR = {
     'Toric2DCode': ['MatchingDecoder', 'BeliefPropagationOSDDecoder',
                     'UnionFindDecoder'],
     'Planar2DCode': ['MatchingDecoder', 'BeliefPropagationOSDDecoder'],
     'RotatedPlanar2DCode': ['MatchingDecoder', 'BeliefPropagationOSDDecoder'],
+    # (in the workload since the sweep tie-break crash, owned by C10, was
+    # repaired - see the attribution rule in DESIGN.md section 4)
+    'Toric3DCode': ['SweepMatchDecoder', 'BeliefPropagationOSDDecoder'],
 }
+
+
+def _size_dict(s):
+    return dict(zip(('L_x', 'L_y', 'L_z'), s))
 RATES = [0.05, 0.1, 0.15, 0.2, 0.3]
 DIRECTIONS = [
     {'r_x': 1/3, 'r_y': 1/3, 'r_z': 1/3},
@@ -65,7 +73,7 @@ def gen_ranges(rng, n_sims_max=4):
     if rng.random() < 0.25:
         noise['deformation_name'] = 'XZZX'
     if rng.random() < 0.5:
-        code_params = [{'L_x': s[0], 'L_y': s[1]} for s in sizes]
+        code_params = [_size_dict(s) for s in sizes]
     else:
         code_params = [list(s) for s in sizes]
     r = {
@@ -135,7 +143,7 @@ def grow_spec(rng, spec):
         have = [canon(x) for x in r['code']['parameters']]
         as_dict = isinstance(r['code']['parameters'][0], dict)
         for c, s in CODES_2D:
-            cp = {'L_x': s[0], 'L_y': s[1]} if as_dict else list(s)
+            cp = _size_dict(s) if as_dict else list(s)
             if c == cname and canon(cp) not in have:
                 r['code']['parameters'] = r['code']['parameters'] + [cp]
                 break
